@@ -322,8 +322,24 @@ DEEP_XSD = f'''<xs:schema xmlns:xs="{D.XS}">
 </xs:schema>'''
 
 
-def nested(depth, width=1):
-    return '<n>' * depth + ('<n/>' * 0) + '</n>' * depth
+def nested(depth, shape='plain'):
+    """A document of exactly `depth` nested element levels; comments and PIs do not count as levels."""
+    body = '<n>' * depth + '</n>' * depth
+    if shape == 'prolog_pi':
+        return '<?xml-stylesheet href="x.css"?>' + body
+    if shape == 'prolog_comments':
+        return '<!-- a --><!-- b --><!-- c -->' + body
+    if shape == 'inner_comments':
+        k = min(3, depth)
+        return '<n><!-- c -->' * k + '<n>' * (depth - k) + '</n>' * depth
+    if shape == 'inner_pi':
+        return '<n><?p i?>' + '<n>' * (depth - 1) + '</n>' * depth
+    if shape == 'trailing_comment':
+        return body + '<!-- end -->'
+    return body
+
+
+DEPTH_SHAPES = ('plain', 'prolog_pi', 'prolog_comments', 'inner_comments', 'inner_pi', 'trailing_comment')
 
 
 def run_depth(spec, res):
@@ -338,36 +354,42 @@ def run_depth(spec, res):
     for depth in sorted({1, 2, L - 1, L, L + 1, L + 5} | ({300, 450, 520, 700} if L >= 1000 else set())):
         if depth < 1:
             continue
-        data = nested(depth).encode()
-        within = depth <= L
-        case = {'depth_limit': L, 'depth': depth, 'lazy': spec['lazy']}
-        res.nontrivial.add(env.h8(('depth', L, depth, spec['lazy'])))
-        res.count('limit_sweep:depth')
+        for shape in (DEPTH_SHAPES if abs(depth - L) <= 5 else ('plain',)):
+            depth_case(res, xmlschema, sent, schema, XMLResourceExceeded, L, depth, shape, spec['lazy'])
 
-        def make():
-            return xmlschema.XMLResource(io.BytesIO(data), lazy=spec['lazy'])
-        r = sent.call('XMLResource', make, case)
-        outcome = r
-        if spec['lazy'] and r[0] == 'return':
-            # a lazy resource only reads the root at construction: iterate it to meet the limit
-            outcome = sent.call('lazy_iter', lambda: sum(1 for _ in make().iter()), case)
-        exceeded = outcome[0] == 'library' and isinstance(outcome[1], XMLResourceExceeded)
-        if within and exceeded:
-            res.violation('depth-within-limit-refused', case,
-                          f'MAX_XML_DEPTH={L}: document of depth {depth} refused: {str(outcome[1])[:120]}')
-        elif not within and not exceeded:
-            res.violation('depth-beyond-limit-not-refused-with-XMLResourceExceeded', case,
-                          f'MAX_XML_DEPTH={L}: document of depth {depth}: outcome {outcome[0]} {type(outcome[1]).__name__}')
-        else:
-            res.count('limit_sweep:depth_agree_' + ('within' if within else 'beyond'))
-        if within and not exceeded:
-            # the whole pipeline on a document within the limits
-            v = sent.call('is_valid', lambda: schema.is_valid(make()), case)
-            if v[0] == 'return' and v[1] is not True:
-                res.violation('deep-valid-document-rejected', case, f'depth {depth}: is_valid -> {v[1]}')
-            sent.call('iter_errors', lambda: list(schema.iter_errors(make())), case, lax=True)
-            sent.call('decode_lax', lambda: schema.decode(make(), validation='lax'), case, lax=True)
-        res.sample({'depth_limit': L, 'depth': depth, 'lazy': spec['lazy'], 'outcome': outcome[0]}) if len(res.samples) < 3 else None
+
+def depth_case(res, xmlschema, sent, schema, XMLResourceExceeded, L, depth, shape, lazy):
+    data = nested(depth, shape).encode()
+    within = depth <= L
+    case = {'depth_limit': L, 'depth': depth, 'lazy': lazy, 'shape': shape}
+    res.nontrivial.add(env.h8(('depth', L, depth, lazy, shape)))
+    res.count('limit_sweep:depth')
+
+    def make():
+        return xmlschema.XMLResource(io.BytesIO(data), lazy=lazy)
+    r = sent.call('XMLResource', make, case)
+    outcome = r
+    if lazy and r[0] == 'return':
+        # a lazy resource only reads the root at construction: iterate it to meet the limit
+        outcome = sent.call('lazy_iter', lambda: sum(1 for _ in make().iter()), case)
+    exceeded = outcome[0] == 'library' and isinstance(outcome[1], XMLResourceExceeded)
+    if within and exceeded:
+        res.violation('depth-within-limit-refused', case,
+                      f'MAX_XML_DEPTH={L}: {shape} document of depth {depth} refused: {str(outcome[1])[:120]}')
+    elif not within and not exceeded:
+        res.violation('depth-beyond-limit-not-refused-with-XMLResourceExceeded', case,
+                      f'MAX_XML_DEPTH={L}: {shape} document of depth {depth}: outcome {outcome[0]} {type(outcome[1]).__name__}')
+    else:
+        res.count('limit_sweep:depth_agree_' + ('within' if within else 'beyond'))
+    if within and not exceeded and shape == 'plain':
+        # the whole pipeline on a document within the limits
+        v = sent.call('is_valid', lambda: schema.is_valid(make()), case)
+        if v[0] == 'return' and v[1] is not True:
+            res.violation('deep-valid-document-rejected', case, f'depth {depth}: is_valid -> {v[1]}')
+        sent.call('iter_errors', lambda: list(schema.iter_errors(make())), case, lax=True)
+        sent.call('decode_lax', lambda: schema.decode(make(), validation='lax'), case, lax=True)
+    if len(res.samples) < 3:
+        res.sample({'depth_limit': L, 'depth': depth, 'shape': shape, 'lazy': lazy, 'outcome': outcome[0]})
 
 
 def run_elements(spec, res):
